@@ -221,7 +221,7 @@ func checkC12(c *Ctx, r *Report) {
 		"R1 every insert into an entry map is paired, on every path, with +size (the same value recorded in the entry) and either -oldSize (key existed) or +1 entry (key absent)",
 		"R2 every delete from an entry map is paired on every path with -1 entry and -size where size is the Size recorded in the entry being removed; no decrement without the delete",
 		"R3 counter ownership: byteSize / BytesCached / CacheEntries are mutated only through the four helpers (and the janitor's republish of getCacheSize())",
-		"R4 every entry-map mutation and counter helper call runs with the key's shard lock held on every call path (must-hold set)",
+		"R4 every entry-map mutation, counter helper call and appearance/disappearance of an entry file (os.Rename into place, os.Remove of a published file) runs with the key's shard lock held on every call path (must-hold set): the directory, the map and the counters change in one critical section per key",
 		"R5 a store adds to the counters only after the entry is in the map",
 		"R6 the file backend wipes its directory before the map exists and counters start at zero",
 	}
@@ -413,6 +413,17 @@ func checkC12(c *Ctx, r *Report) {
 					}
 				} else if k := callAcctKind(x); k != "" {
 					what = "accounting " + k
+				} else if n := calleeName(x); n == "os.Rename" || n == "os.Remove" || n == "os.RemoveAll" {
+					// the entry file itself appears / disappears: same critical section as its bookkeeping.
+					// Removal of a temp file that was never published is not an entry operation.
+					arg := x.Call.Args[len(x.Call.Args)-1]
+					isTemp := derivesFrom(arg, func(v ssa.Value) bool {
+						c2, ok := v.(*ssa.Call)
+						return ok && (calleeName(c2) == "os.CreateTemp" || calleeName(c2) == "(*os.File).Name")
+					})
+					if n == "os.Rename" || !isTemp {
+						what = "entry file " + strings.TrimPrefix(n, "os.")
+					}
 				}
 			}
 			if what == "" {
